@@ -399,6 +399,31 @@ def main(run):
                               no_input=True)
     run.cov["different_context"] = {"deliveries": len(other), "failures": n_other_bad}
 
+    # ---------------------------------------------------------------- re-spelled OSCORE options
+    sv = []
+    for ctxt, mode, dgh, info in tamper_jobs:
+        for tag, var, must in G.structured_variants(bytes.fromhex(dgh), mode[0] == "req"):
+            sv.append((" ".join(["oscun"] + ctxt + mode + [var.hex()]), tag, must, dgh))
+    if quick:
+        sv = sv[:2500]
+    sm, sc, _ = tie.run_both(model, drv, [v[0] for v in sv], timeout=3000)
+    n_sv_bad = 0
+    for k, (ln, tag, must, dgh) in enumerate(sv):
+        run.cov["evaluations"] += 1
+        run.hist("structured_option_change", "%s:%s" % (tag, sc[k].split(" ")[0]))
+        if must and sc[k].startswith("OK"):
+            n_sv_bad += 1
+            if n_sv_bad <= 3:
+                run.violation("datagram with a modified OSCORE option value (%s) is accepted: %s" % (tag, sc[k][:160]),
+                              "original datagram: %s\nreplay: %s\nmodel: %s\nimpl : %s\n" % (dgh, ln, sm[k], sc[k]),
+                              tag="opt%d" % n_sv_bad)
+        elif sm[k] != sc[k]:
+            n_sv_bad += 1
+            if n_sv_bad <= 3:
+                run.violation("modified OSCORE option value (%s): implementation differs from the reference" % tag,
+                              "original datagram: %s\nreplay: %s\nmodel: %s\nimpl : %s\n" % (dgh, ln, sm[k], sc[k]),
+                              tag="opt%d" % n_sv_bad, no_input=not sc[k].startswith("OK"))
+    run.cov["structured_option_changes"] = {"deliveries": len(sv), "failures": n_sv_bad}
     run.cov["phase_seconds"]["different_context"] = round(time.time() - t_phase, 1)
     t_phase = time.time()
     # ---------------------------------------------------------------- bit flips and truncations
@@ -515,5 +540,5 @@ def main(run):
     stats["reference_disagreements"] = ndis
     run.cov["tamper"] = stats
     run.cov["evaluations"] += stats["variants"]
-    run.cov["disagreements"] = nbad + n_other_bad + nflip_bad + ndis
+    run.cov["disagreements"] = nbad + n_other_bad + n_sv_bad + nflip_bad + ndis
     run.cov["corpus_cases"] = len(corpus)
